@@ -1675,7 +1675,7 @@ class LoopExpression(Expression):
             length = max(length - offset, 0)
         elif offset is not None:
             assert isinstance(offset, int), f"found {offset!r}"
-            offset = max(offset, 0)
+            offset = min(max(offset, 0), length)
             length = max(length - offset, 0)
 
         if limit is not None:
